@@ -37,6 +37,11 @@ REDIRECT = {
     "timespec_get": "sim_fb_timespec_get",
     "fopen": "sim_fb_fopen", "open": "sim_fb_open", "read": "sim_fb_read", "fread": "sim_fb_fread",
     "getenv": "sim_fb_getenv", "getpid": "sim_fb_getpid",
+    # synchronisation, should the library ever use it: wrappers that yield to the scheduler instead of blocking
+    "pthread_mutex_lock": "sim_mutex_lock", "pthread_mutex_trylock": "sim_mutex_trylock", "pthread_mutex_unlock": "sim_mutex_unlock",
+    "pthread_rwlock_rdlock": "sim_rwlock_rdlock", "pthread_rwlock_wrlock": "sim_rwlock_wrlock", "pthread_rwlock_unlock": "sim_rwlock_unlock",
+    "pthread_spin_lock": "sim_spin_lock", "pthread_spin_unlock": "sim_spin_unlock",
+    "pthread_once": "sim_pthread_once", "call_once": "sim_call_once", "mtx_lock": "sim_mtx_lock", "mtx_unlock": "sim_mtx_unlock",
 }
 REDIRECT_MEM = {
     "memcpy": "sim_memcpy", "memmove": "sim_memmove", "memset": "sim_memset", "memcmp": "sim_memcmp", "bcmp": "sim_bcmp",
